@@ -234,6 +234,8 @@ def run_cli(case):
     env["PYTHONPATH"] = repo
     env.pop("TBOTPATH", None)
     env["PYTHONDONTWRITEBYTECODE"] = "1"
+    # the terminal the tool writes to: UTF-8, plain ASCII (a serial console, LANG=C), or latin-1 — derived from the case
+    env["PYTHONIOENCODING"] = ("utf-8", "ascii", "latin-1")[zlib.crc32(case.line().encode()) % 3]
     try:
         p = subprocess.run(["timeout", "-k", "5", str(CLI_TIMEOUT)] + argv, cwd=moddir, env=env,
                            stdin=subprocess.DEVNULL, stdout=subprocess.PIPE, stderr=subprocess.STDOUT,
